@@ -5,6 +5,7 @@ import Hv.Driver.Hds
 import Hv.Driver.Vhdx
 import Hv.Driver.Vmdk
 import Hv.Driver.Qcow2
+import Hv.Driver.Vmtar
 open Hv Hv.Driver
 
 def dispatch (st : St) (toks : List String) : String :=
@@ -19,6 +20,7 @@ def dispatch (st : St) (toks : List String) : String :=
     else if cmd.startsWith "vmdk.desc." || cmd.startsWith "desc." then vmdkDescCmd st toks
     else if cmd.startsWith "vmdk." then vmdkCmd st toks
     else if cmd.startsWith "qcow2." then qcow2Cmd st toks
+    else if cmd.startsWith "vmtar." then vmtarCmd st toks
     else "bad-cmd"
 
 partial def loop (h : IO.FS.Stream) (out : IO.FS.Stream) (st : St) : IO Unit := do
